@@ -14,6 +14,7 @@ C05 — Tie: what the extractor reads from the go-zero tree NOW equals what the 
 -/
 import GoZero.Extracted.C05
 import GoZero.C05.Proofs
+import GoZero.C05.ModelOpts
 namespace GoZero.C05.Tie
 open GoZero.C05
 open GoZero.Extracted.C05
@@ -170,5 +171,138 @@ theorem tie_poolPut :
 theorem tie_newPool :
     newPoolShape = ["if n <= 0 {", "panic", "}", "call sync.NewCond", "range opts {", "call opt", "}", "return"]
     ∧ newPoolDetails = ["field limit: n", "call sync.NewCond(lock)"] := by decide
+
+/-! ## round 4: semantic ties (Go conditions / stores translated to Lean, equal to the model for ALL arguments)
+and the construction facts behind `build_isolated` -/
+
+/-- `WithWorkers(k)` of fx and mr, translated: the closure stores `effWorkers k` into `opts.workers` and nothing
+else — operator (`<`), constant (`minWorkers = 1`), both stored values. This is `applyOpt _ (.withWorkers k)`. -/
+theorem tie_withWorkers_semantic :
+    (∀ k : Int, fxWithWorkersEff k = [("opts.workers", effWorkers k)])
+    ∧ (∀ k : Int, mrWithWorkersEff k = [("opts.workers", effWorkers k)])
+    ∧ (∀ (o : RxOptions) (k : Int), (applyOpt o (.withWorkers k)).workers = effWorkers k
+        ∧ (applyOpt o (.withWorkers k)).unlimited = o.unlimited) := by
+  refine ⟨?_, ?_, fun o k => ⟨rfl, rfl⟩⟩ <;> intro k <;> unfold effWorkers <;>
+    simp only [fxWithWorkersEff, mrWithWorkersEff] <;> by_cases h : k < 1 <;> simp [h]
+
+/-- `UnlimitedWorkers()` sets the flag through the pointer and touches nothing else (`applyOpt _ .unlimited`). -/
+theorem tie_unlimited :
+    fxUnlimitedStmts = ["return func(opts *rxOptions) { opts.unlimitedWorkers = true }"]
+    ∧ (∀ o : RxOptions, (applyOpt o .unlimited).unlimited = true ∧ (applyOpt o .unlimited).workers = o.workers) := by
+  exact ⟨by decide, fun o => ⟨rfl, rfl⟩⟩
+
+/-- **the construction** (`bstep false`): `buildOptions` gets its struct from a CALL of `newOptions()` (not from
+a variable), applies every option to that pointer, returns it; `newOptions` returns the address of a composite
+literal (a fresh allocation per call) whose `workers` is `defaultWorkers = 16`; fx and mr alike. -/
+theorem tie_buildOptions_fresh :
+    fxBuildOptionsStmts = ["options := newOptions()", "for _, opt := range opts { opt(options) }", "return options"]
+    ∧ mrBuildOptionsStmts = ["options := newOptions()", "for _, opt := range opts { opt(options) }", "return options"]
+    ∧ fxNewOptionsStmts = ["return &rxOptions{ workers: defaultWorkers, }"]
+    ∧ mrNewOptionsStmts = ["return &mapReduceOptions{ ctx: context.Background(), workers: defaultWorkers, }"]
+    ∧ fxDefaultWorkers = defaultWorkers ∧ mrDefaultWorkers = defaultWorkers
+    ∧ newOptions = { unlimited := false, workers := fxDefaultWorkers } := by decide
+
+/-- no package-level variable (besides immutable error values) in the packages of the limiters: nothing a
+constructor or an option could share between instances (threading's `bufSize` belongs to StableRunner). -/
+theorem tie_no_package_state :
+    fxPkgVars = [] ∧ mrPkgVars = [] ∧ syncxPkgVars = []
+    ∧ threadingPkgVars = ["stablerunner.go: bufSize = runtime.NumCPU() * factor"] := by decide
+
+/-- who builds the options and what reaches the limiter: `Walk` calls `buildOptions(opts...)` itself, once, and
+decides on `option.unlimitedWorkers` (the `none` of `capOf`); Map / Filter / Parallel hand THEIR `opts...` to
+`Walk`; mr's `ForEach` and `mapReduceWithPanicChan` call `buildOptions(opts...)` and pass `options.workers` on. -/
+theorem tie_option_callers :
+    fxWalkStmts = ["option := buildOptions(opts...)", "if option.unlimitedWorkers { return s.walkUnlimited(fn, option) }",
+                   "return s.walkLimited(fn, option)"]
+    ∧ fxMapStmts = ["return s.Walk(func(item any, pipe chan<- any) { pipe <- fn(item) }, opts...)"]
+    ∧ fxFilterStmts = ["return s.Walk(func(item any, pipe chan<- any) { if fn(item) { pipe <- item } }, opts...)"]
+    ∧ fxParallelStmts = ["s.Walk(func(item any, pipe chan<- any) { fn(item) }, opts...).Done()"]
+    ∧ mrForEachCalls.head? = some "call buildOptions(opts)" ∧ "field workers: options.workers" ∈ mrForEachCalls
+    ∧ mrMapReduceCalls.head? = some "call buildOptions(opts)" ∧ "field workers: options.workers" ∈ mrMapReduceCalls := by
+  decide
+
+/-- the constructors of the other limiters build fresh state from their argument (a new channel of capacity
+`n` / `concurrency`, a new Cond, the struct by value): no instance can see another one's permits. -/
+theorem tie_constructors_fresh :
+    newLimitStmts = ["return Limit{ pool: make(chan lang.PlaceholderType, n), }"]
+    ∧ newTimeoutLimitStmts = ["return TimeoutLimit{ limit: NewLimit(n), cond: NewCond(), }"]
+    ∧ newCondStmts = ["return &Cond{ signal: make(chan lang.PlaceholderType), }"]
+    ∧ newTaskRunnerStmts = ["return &TaskRunner{ limitChan: make(chan lang.PlaceholderType, concurrency), }"]
+    ∧ newWorkerGroupStmts = ["return WorkerGroup{ job: job, workers: workers, }"]
+    ∧ newRoutineGroupStmts = ["return new(RoutineGroup)"] := by decide
+
+/-- `MaxConnsHandler(n)`: pass-through exactly for `n ≤ 0` — the `none` of `engineCap`. -/
+theorem tie_maxConns_cond :
+    (∀ n : Int, maxConnsPassCond n = decide (n ≤ 0))
+    ∧ (∀ m : Int, engineCap true m = none ↔ maxConnsPassCond m = true) := by
+  refine ⟨fun n => rfl, fun m => ?_⟩
+  unfold engineCap maxConnsPassCond
+  by_cases h : m ≤ 0 <;> simp [h]
+
+/-- `Pool.Get`: the expiry test and the create test, translated, are the model's `expired` and the test of
+`getLoop` on the empty idle list (strict `<` in both, `maxAge > 0` guards the expiry); `NewPool` panics for
+`n ≤ 0` (so `limit ≥ 1`). -/
+theorem tie_pool_conds :
+    (∀ (maxAge now : Nat) (nd : PNode), poolExpiredCond maxAge nd.lastUsed now = expired maxAge now nd)
+    ∧ (∀ (created limit : Int), poolCreateCond created limit = decide (created < limit))
+    ∧ (∀ (limit maxAge now next : Nat) (created : Int) (d : List Nat),
+        (getLoop limit maxAge now next [] created d).2
+          = if poolCreateCond created limit then .got next true d else .wait d)
+    ∧ (∀ n : Int, newPoolPanicCond n = decide (n ≤ 0)) := by
+  refine ⟨?_, fun _ _ => rfl, ?_, fun _ => rfl⟩
+  · intro maxAge now nd
+    unfold poolExpiredCond expired
+    congr 1
+    · simp
+    · rw [decide_eq_decide]; omega
+  · intro limit maxAge now next created d
+    unfold poolCreateCond
+    by_cases h : created < (limit : Int) <;> simp [getLoop, h]
+
+/-- `TimeoutLimit.Borrow`: a woken borrower takes a permit only through `ok && l.TryBorrow()`, gives up exactly
+when `timeout <= 0`. -/
+theorem tie_timeoutLimit_conds :
+    (∀ ok b : Bool, tlRetryCond ok b = (ok && b)) ∧ (∀ t : Int, tlTimeoutCond t = decide (t ≤ 0)) :=
+  ⟨fun _ _ => rfl, fun _ => rfl⟩
+
+/-- number of iterations of `for i := 0; cond i; i++`. -/
+def loopCount (cond : Int → Bool) : Nat → Int → Nat
+  | 0, _ => 0
+  | fuel + 1, i => if cond i then 1 + loopCount cond fuel (i + 1) else 0
+
+theorem loopCount_lt (w : Int) (fuel : Nat) (i : Int) (hi : i ≤ w) (hf : w - i < fuel) :
+    (loopCount (fun j => decide (j < w)) fuel i : Int) = w - i := by
+  induction fuel generalizing i with
+  | zero => omega
+  | succ f ih =>
+    unfold loopCount
+    by_cases h : i < w
+    · simp only [h, decide_true, if_true]
+      have := ih (i + 1) (by omega) (by omega)
+      omega
+    · simp only [h, decide_false]
+      simp
+      omega
+
+/-- **`WorkerGroup.Start` starts exactly `workers` jobs** (`for i := 0; i < wg.workers; i++`, translated
+condition, whatever fuel beyond `workers`): the `k` of `workerGroup_cap`. -/
+theorem tie_workerGroup_loop :
+    workerGroupFor = ["i := 0", "i < wg.workers", "i++"]
+    ∧ (∀ i w : Int, workerGroupLoopCond i w = decide (i < w))
+    ∧ (∀ (w : Nat) (extra : Nat), loopCount (fun i => workerGroupLoopCond i w) (w + 1 + extra) 0 = w) := by
+  refine ⟨by decide, fun _ _ => rfl, ?_⟩
+  intro w extra
+  have := loopCount_lt (w : Int) (w + 1 + extra) 0 (by omega) (by omega)
+  have h2 : (fun i : Int => workerGroupLoopCond i w) = (fun j : Int => decide (j < (w : Int))) := rfl
+  rw [h2]
+  omega
+
+/-- `WithMaxAge(d)` stores its argument into `p.maxAge` (the `maxAge` of the model). -/
+theorem tie_pool_maxage : poolMaxAgeStores = ["store pool.maxAge = duration"] := by decide
+
+/-- `mr.Finish/FinishVoid(fns...)` ask for exactly `len(fns)` workers (every function may run at once; no cap
+claim is made for them). -/
+theorem tie_mr_finish :
+    "call WithWorkers(len(fns))" ∈ mrFinishCalls ∧ "call WithWorkers(len(fns))" ∈ mrFinishVoidCalls := by decide
 
 end GoZero.C05.Tie
